@@ -186,6 +186,19 @@ func (w *Worker) kill(sig syscall.Signal) {
 	}
 }
 
+// Restart replaces the worker process by a fresh one (used after a request left goroutines behind, so that they
+// cannot be attributed to later requests).
+func (w *Worker) Restart() {
+	w.mu.Lock()
+	defer w.mu.Unlock()
+	if w.stdin != nil {
+		_ = w.stdin.Close()
+	}
+	w.kill(syscall.SIGKILL)
+	w.Respawns++
+	w.start()
+}
+
 // Close stops the worker.
 func (w *Worker) Close() {
 	w.mu.Lock()
